@@ -10,8 +10,26 @@ func Register(reg *kernel.Registry) {
 			"tendermint/light verification code as vendored by the repository's dependencies"},
 		{"Tendermint validator network (stub: evolving validator sets with real ed25519 keys, real commit construction, Byzantine signer subsets and header mutations)", "relayer"},
 	}
+	reg.Scenarios["bsc"] = BSCScenario{}
+	reg.Components["bsc"] = [2][]string{
+		{"teleport application (one chain): xibc client keeper, BSC light client (header verification, snapshot, epoch switch, recents, storage-proof verification), packet keeper receive path, through BaseApp.DeliverTx"},
+		{"BSC/Parlia network (stub: real secp256k1 sealing, real RLP/keccak header hashes, evolving validator sets across epochs)", "EVM world state of the counterparty (stub built on go-ethereum's real Merkle-Patricia trie; eth_getProof-shaped proofs are genuine)", "relayer"},
+	}
+	reg.Scenarios["eth"] = ETHScenario{}
+	reg.Components["eth"] = [2][]string{
+		{"teleport application (one chain): xibc client keeper, Ethereum light client in Rinkeby mode (header rules, header index, fork re-pointing, pruning, storage-proof verification), packet keeper receive path, through BaseApp.DeliverTx"},
+		{"Ethereum miner network (stub: header trees with forks; real RLP/keccak hashes; EIP-1559 base fee from go-ethereum consensus/misc; no proof of work)", "EVM world state of the counterparty (stub on go-ethereum's real Merkle-Patricia trie)", "relayer"},
+	}
+	reg.Serves["C10"] = append(reg.Serves["C10"], "eth")
+	reg.Serves["C08"] = append(reg.Serves["C08"], "eth")
+	reg.MinProbes["C10"] = []string{"update.accepted", "byz.fork"}
+	reg.Assumptions["C10"] = []string{"Rinkeby chain id (4): the client itself skips difficulty and proof-of-work checks there; PoW mode is not simulated (mining a header costs ~45 s here)", "sampling, not enumeration"}
+	reg.Serves["C09"] = append(reg.Serves["C09"], "bsc")
+	reg.Serves["C08"] = append(reg.Serves["C08"], "bsc")
+	reg.MinProbes["C09"] = []string{"update.accepted"}
+	reg.MinProbes["C08"] = []string{"recv.accepted", "recv.rejected"}
 	reg.Serves["C07"] = append(reg.Serves["C07"], "tm")
-	reg.Serves["C13"] = append(reg.Serves["C13"], "tm")
+	reg.Serves["C13"] = append(reg.Serves["C13"], "tm", "bsc", "eth")
 	reg.Serves["C19"] = append(reg.Serves["C19"], "tm")
 	reg.Assumptions["C07"] = []string{
 		"the reference predicate counts a signature as valid only if it was produced by the validator's own key over the submitted header; hash collisions and signature forgery are out of scope",
